@@ -175,6 +175,31 @@ impl Ctx {
         };
         self.verdict(same, if matches!(r, Obs::Panic) { "panic_new" } else { "new_revname_mismatch" }, &case, &format!("NameBuf {} RevNameBuf {}", n.show(), r.show()));
         let show = |x: &Obs| match x { Obs::Ok(w, _) => format!("Ok {}", hex(w)), y => y.show() };
+        // the two exact-parse entry points (ParseMessageBytes) must agree with each other on every
+        // range: up to the end of the first segment (if the split readers found one) and up to
+        // the end of the contents
+        {
+            let mut ends = vec![msg.len()];
+            if let Obs::Ok(_, e) = &n { ends.push(*e); }
+            if let Obs::Ok(_, e) = &r { ends.push(*e); }
+            ends.sort(); ends.dedup();
+            for e in ends {
+                if pos > e { continue; }
+                let c = &msg[12..e];
+                let cs = format!("parse {} {}", hex(c), pos - 12);
+                self.out.begin(&format!("r{}", cs));
+                let (np, rp) = (new_parse(c, pos - 12), rev_parse(c, pos - 12));
+                let agree = match (&np, &rp) { (Obs::Ok(a, _), Obs::Ok(b, _)) => unreverse(b).as_ref() == Some(a), (Obs::Err, Obs::Err) => true, _ => false };
+                self.verdict(agree, if matches!(np, Obs::Panic) || matches!(rp, Obs::Panic) { "panic_new" } else { "new_parse_revparse_mismatch" }, &cs,
+                    &format!("NameBuf::parse_message_bytes {} RevNameBuf::parse_message_bytes {}", show(&np), show(&rp)));
+                // an exact parse that succeeds returns what the split reader returns
+                if let (Obs::Ok(a, _), Obs::Ok(w, e2)) = (&np, &n) { self.verdict(a == w && *e2 == e, "new_parse_split_mismatch", &cs, &format!("parse {} split {}", show(&np), n.show())); }
+                if kind.starts_with("chain") || kind.starts_with("cname") {
+                    self.out.case(&cs, &show(&np), true, &format!("{}:parse", kind));
+                    self.out.case(&format!("r{}", cs), &show(&rp), true, &format!("{}:rparse", kind));
+                }
+            }
+        }
         if let Obs::Ok(w, e) = &n {
             let c = &msg[12..*e];
             let p = new_parse(c, pos - 12);
@@ -461,6 +486,61 @@ fn corpus() -> Vec<(Vec<u8>, usize)> {
     v
 }
 
+/// pointer chains: segments that end in pointers to other segments (backward, forward, to
+/// themselves, to other pointers); returns the message and the segment starts
+fn chain_message(rng: &mut Rng) -> (Vec<u8>, Vec<usize>) {
+    let mut m = header(0, 0, 0, 0);
+    let k = rng.range(2, 6) as usize;
+    // lay the segments out first with placeholder pointers
+    let mut starts = vec![]; let mut ptr_at = vec![];
+    for i in 0..k {
+        starts.push(m.len());
+        let nl = if rng.chance(1, 3) { 0 } else { rng.range(1, 2) };
+        for _ in 0..nl { let l = rand_label(rng); m.push(l.len() as u8); m.extend_from_slice(&l); }
+        if i == 0 && rng.chance(2, 3) || rng.chance(1, 6) { m.push(0); ptr_at.push(None); }
+        else { ptr_at.push(Some(m.len())); m.extend_from_slice(&[0xc0, 0]); }
+        if rng.chance(1, 4) { m.extend_from_slice(&[0, 0][..rng.range(1, 2) as usize]); }
+    }
+    for i in 0..k {
+        if let Some(p) = ptr_at[i] {
+            // mostly an earlier segment; sometimes itself, a later one, or a pointer position
+            let t = match rng.below(8) { 0 => starts[i], 1 => *rng.pick(&starts[..]), 2 => ptr_at[rng.below(k as u64) as usize].unwrap_or(12), _ => starts[rng.below(i.max(1) as u64) as usize] };
+            m[p] = 0xc0 | (t >> 8) as u8; m[p + 1] = t as u8;
+        }
+    }
+    (m, starts)
+}
+
+/// fixed pointer chains (message, position of the name)
+fn chain_corpus() -> Vec<(Vec<u8>, usize)> {
+    let mk = |tail: &[u8]| { let mut m = header(0, 0, 0, 0); m.extend_from_slice(tail); m };
+    vec![
+        (mk(b"\x03org\x00\x01a\xc0\x0c\x03www\xc0\x11"), 21),                    // www -> a -> org.
+        (mk(b"\x01a\xc0\x12\x00\x00\x03org\x00\x03www\xc0\x0c"), 23),          // second hop goes forward
+        (mk(b"\xc0\x0c\x01x\xc0\x0c"), 14),                                         // pointer to a pointer to itself
+        (mk(b"\xc0\x0c\xc0\x0c"), 14),
+        (mk(b"\x00\xc0\x0c\xc0\x0d\x01a\xc0\x0f"), 17),                          // pointer -> pointer -> pointer -> root
+        (mk(b"\x01a\xc0\x0c\x01b\xc0\x0c"), 16),                                   // second hop to the start of its own segment
+        (mk(b"\x00\x01a\xc0\x0c\x01b\xc0\x0d\x01c\xc0\x11\x01d\xc0\x15"), 25), // four hops
+        (mk(b"\x01a\xc0\x14\x00\x00\x00\x00\x01b\xc0\x0c\x01c\xc0\x14"), 24), // a -> (forward) b -> a ...
+    ]
+}
+
+/// CNAME records whose RDATA is a (compressed) name: (message, position of the record, start and end of the RDATA)
+fn cname_message(rng: &mut Rng, chain: bool) -> (Vec<u8>, usize, usize, usize) {
+    let (mut m, starts) = if chain { chain_message(rng) } else { let mut m = header(0, 1, 0, 0); let mut np = vec![]; put_name(&mut m, rng, &mut np); put_name(&mut m, rng, &mut np); (m, np) };
+    let pos = m.len();
+    m.extend_from_slice(&[1, b'o', 0, 0, 5, 0, 1, 0, 0, 0, 9, 0, 0]);
+    let rd = m.len();
+    for _ in 0..rng.below(3) { let l = rand_label(rng); m.push(l.len() as u8); m.extend_from_slice(&l); }
+    if rng.chance(1, 4) { m.push(0); } else { let t = if rng.chance(1, 8) { rd } else { *rng.pick(&starts[..]) }; m.push(0xc0 | (t >> 8) as u8); m.push(t as u8); }
+    if rng.chance(1, 10) { m.push(0); }                     // trailing octet inside the RDATA
+    let end = m.len();
+    let l = (end - rd) as u16; m[rd - 2..rd].copy_from_slice(&l.to_be_bytes());
+    if rng.chance(1, 4) { m.extend_from_slice(&[0, 1, 2][..rng.range(1, 3) as usize]); }
+    (m, pos, rd, end)
+}
+
 /// large messages around the 14-bit pointer limit
 fn big_corpus() -> Vec<(Vec<u8>, usize)> {
     let mut v = vec![];
@@ -477,6 +557,20 @@ fn big_corpus() -> Vec<(Vec<u8>, usize)> {
         v.push((m, pos));
     }
     { let mut m = vec![0u8; 16400]; m[0x3fff] = 0; let pos = m.len(); m.extend_from_slice(&[0xff, 0xff]); v.push((m, pos)); }
+    // names that START at 16383 / 16384 / 16385 in a message > 16 KiB, read in place and
+    // through a later pointer (only 16383 is addressable; c0|(x>>8)&3f wraps for the others)
+    for at in [16383usize, 16384, 16385] {
+        let mut m = vec![7u8; 16500]; for b in m[..12].iter_mut() { *b = 0; }
+        m[at..at + 5].copy_from_slice(&[1, b'n', 1, b'z', 0]);
+        v.push((m.clone(), at));
+        let pos = m.len();
+        m.extend_from_slice(&[1, b'p', 0xc0 | ((at >> 8) & 0x3f) as u8, at as u8]);
+        v.push((m.clone(), pos));
+        // and a chain: p2 -> p -> name
+        let pos2 = m.len();
+        m.extend_from_slice(&[1, b'r', 0xc0 | ((pos >> 8) & 0x3f) as u8, pos as u8]);
+        v.push((m, pos2));
+    }
     v
 }
 
@@ -621,6 +715,7 @@ fn read_new(msg: &[u8]) -> Result<Vec<Item>, String> {
     Ok(items)
 }
 
+fn rng_bit(rng: &mut Rng) -> bool { rng.chance(1, 2) }
 fn rand_small(rng: &mut Rng) -> Vec<u8> { rng.pick(&[&b"a"[..], b"b", b"c", b"x", b"B", b"example", b"com", b"ab", b"\x01a", b"a\x01"]).to_vec() }
 
 fn script_name(rng: &mut Rng, pool: &mut Vec<Vec<Vec<u8>>>) -> Vec<Vec<u8>> {
@@ -730,6 +825,159 @@ fn run_script(cx: &mut Ctx, ops: &[Op], kind: &str, bufsize: usize, with_old: bo
                     cx.verdict(ok, &cls, &tag, &format!("{}: {} :: {}", ctx, first_diff(want, &items), dump));
                 }
             }
+        }
+    }
+}
+
+// ------------------------------------------------------------ typed RDATA names, whole messages
+
+/// a CNAME record: old codec, new codec with NameBuf and with RevNameBuf (the RDATA name goes
+/// through the exact-parse entry points ParseMessageBytes of both name types)
+fn cname_case(cx: &mut Ctx, msg: &[u8], pos: usize, rd: usize, end: usize) {
+    use domain::rdata::Cname as OCname;
+    cx.idx += 1;
+    if !cx.out.wants(cx.idx) { return; }
+    let tag = format!("cname {} {}", hex(msg), pos);
+    cx.out.begin(&tag);
+    cx.out.oracle_case(&tag, true, "cname");
+    let old = flat(catch(|| {
+        let mut p = Parser::from_ref(msg); p.seek(pos).map_err(|_| ())?;
+        let r = ParsedRecord::parse(&mut p).map_err(|_| ())?;
+        let c = r.to_record::<OCname<ParsedName<&[u8]>>>().map_err(|_| ())?.ok_or(())?;
+        Ok((old_wire(c.data().cname()), p.pos()))
+    }));
+    let na = flat(catch(|| {
+        let (r, e) = Record::<NameBuf, RecordData<'_, NameBuf>>::split_message_bytes(&msg[12..], pos - 12).map_err(|_| ())?;
+        match r.rdata { RecordData::CName(c) => Ok((c.name.as_bytes().to_vec(), e + 12)), _ => Err(()) }
+    }));
+    let nb = flat(catch(|| {
+        let (r, e) = Record::<RevNameBuf, RecordData<'_, RevNameBuf>>::split_message_bytes(&msg[12..], pos - 12).map_err(|_| ())?;
+        match r.rdata { RecordData::CName(c) => Ok((unreverse(c.name.as_bytes()).ok_or(())?, e + 12)), _ => Err(()) }
+    }));
+    let panicked = matches!(na, Err(true)) || matches!(nb, Err(true));
+    cx.verdict(!panicked, "panic_new", &tag, "typed CNAME parse panicked");
+    cx.verdict(!matches!(old, Err(true)), "panic_old", &tag, "old CNAME parse panicked");
+    cx.verdict(na == nb, "new_name_type_mismatch", &tag, &format!("RecordData<NameBuf> {:?} RecordData<RevNameBuf> {:?}", na, nb));
+    let class = classify(&msg[..end.min(msg.len())], rd);
+    match (&old, &na) {
+        (Ok(a), Ok(b)) => cx.verdict(a == b, "content_mismatch", &tag, &format!("old {:?} new {:?}", a, b)),
+        (Err(_), Err(_)) => cx.verdict(true, "", "", ""),
+        (a, b) => cx.mismatch("cname", a.is_ok(), b.is_ok(), class, &tag, &format!("old={:?} new={:?}", a, b)),
+    }
+}
+
+/// whole-message iteration: the new MessageParser against the old Message (questions, then
+/// every record of the three sections), and T2 kind `mparse`.  The records carry types the new
+/// RecordData does not know (their typed parse cannot fail) or are the OPT record.
+fn mparse_case(cx: &mut Ctx, msg: &[u8], kind: &str) {
+    cx.idx += 1;
+    if !cx.out.wants(cx.idx) { return; }
+    let case = format!("mparse {}", hex(msg));
+    cx.out.begin(&case);
+    let mv = msg.to_vec();
+    let new = catch(move || {
+        let mut p = match MessageParser::new(&mv) { Ok(p) => p, Err(_) => return ("Short".to_string(), None, 0usize) };
+        let mut items: Vec<String> = vec![]; let mut complete = true;
+        while let Some(it) = p.next() {
+            match it {
+                Err(_) => { complete = false; break; }
+                Ok(MessageItem::Question(q)) => items.push(format!("Q:{}:{}:{}", hex(&unreverse(q.qname.as_bytes()).unwrap_or_default()), q.qtype.code.get(), q.qclass.code.get())),
+                Ok(MessageItem::Edns(e)) => items.push(format!("E:{}:{}:{}:{}:{}", e.max_udp_payload.get(), e.ext_rcode, e.version, e.flags.bits(), (*e.data).as_bytes().len())),
+                Ok(MessageItem::Answer(r)) | Ok(MessageItem::Authority(r)) | Ok(MessageItem::Additional(r)) => {
+                    let rdlen = match &r.rdata { RecordData::Unknown(_, u) => { let b: &[u8] = u.as_bytes(); b.len() as i64 } _ => -1 };
+                    items.push(format!("R:{}:{}:{}:{}:{}", hex(&unreverse(r.rname.as_bytes()).unwrap_or_default()), r.rtype.code.get(), r.rclass.code.get(), r.ttl.value.get(), rdlen));
+                }
+            }
+        }
+        // after an error the iterator is fused
+        let fused = p.next().is_none();
+        let n = items.len();
+        (format!("Ok {} {} {} {}", if items.is_empty() { "-".to_string() } else { items.join(",") }, p.offset(), if complete { "complete" } else { "error" }, if fused { "fused" } else { "notfused" }), Some(complete), n)
+    });
+    let (obs, ncomplete, nitems) = match new { Ok(x) => x, Err(_) => ("Panic".to_string(), None, 0) };
+    cx.out.case(&case, &obs, true, kind);
+    cx.verdict(obs != "Panic", "panic_new", &case, "MessageParser panicked");
+    let old: Result<(usize, bool), bool> = flat(catch(|| {
+        let m = OldMessage::from_octets(msg).map_err(|_| ())?;
+        let mut n = 0usize;
+        for q in m.question() { if q.is_err() { return Ok((n, false)); } n += 1; }
+        let mut sec = match m.answer() { Ok(s) => s, Err(_) => return Ok((n, false)) };
+        loop {
+            for r in sec.by_ref() { if r.is_err() { return Ok((n, false)); } n += 1; }
+            match sec.next_section() { Ok(Some(s)) => sec = s, Ok(None) => break, Err(_) => return Ok((n, false)) }
+        }
+        Ok((n, true))
+    }));
+    match (&old, ncomplete) {
+        (Err(true), _) => cx.verdict(false, "panic_old", &case, "old Message iteration panicked"),
+        (Err(false), None) => cx.verdict(true, "", "", ""),
+        (Ok((on, oc)), Some(nc)) => {
+            cx.verdict(*on == nitems, "message_item_count_mismatch", &case, &format!("old read {} items, new read {} items ({})", on, nitems, obs));
+            if *oc != nc { cx.verdict(false, if nc { "accept_reject_mismatch_message_new_accepts" } else { "accept_reject_mismatch_message_old_accepts" }, &case,
+                &format!("header counts {:?}: old complete={} new complete={} :: {}", &msg[4..12], oc, nc, obs)); }
+            else { cx.verdict(true, "", "", ""); }
+        }
+        (a, b) => cx.verdict(false, "accept_reject_mismatch_message_header", &case, &format!("old {:?} new {:?}", a.is_ok(), b)),
+    }
+}
+
+/// a well-formed message of questions, opaque-typed records and an optional OPT record;
+/// returns the octets and the offsets behind each item
+fn counted_message(rng: &mut Rng) -> (Vec<u8>, Vec<usize>) {
+    let counts = [rng.below(3) as u16, rng.below(3) as u16, rng.below(2) as u16, rng.below(3) as u16];
+    let mut m = header(counts[0], counts[1], counts[2], counts[3]);
+    let mut np: Vec<usize> = vec![]; let mut bounds = vec![m.len()];
+    let name = |m: &mut Vec<u8>, rng: &mut Rng, np: &mut Vec<usize>| {
+        let here = m.len();
+        for _ in 0..rng.below(3) { let l = rand_small(rng); m.push(l.len() as u8); m.extend_from_slice(&l); }
+        if np.is_empty() || rng.chance(1, 2) { m.push(0); } else { let t = *rng.pick(&np[..]); m.push(0xc0 | (t >> 8) as u8); m.push(t as u8); }
+        if m.len() - here > 2 { np.push(here); }
+    };
+    for _ in 0..counts[0] { name(&mut m, rng, &mut np); m.extend_from_slice(&[0, 1, 0, 1]); bounds.push(m.len()); }
+    for s in 1..4 {
+        for i in 0..counts[s] {
+            if s == 3 && i + 1 == counts[3] && rng.chance(1, 2) {
+                let d = opt_bytes(&[(10, rng.bytes(8))]);
+                m.extend_from_slice(&[0, 0, 41, 4, 208, 0, 0, 0x80, 0]); m.extend_from_slice(&(d.len() as u16).to_be_bytes()); m.extend_from_slice(&d);
+            } else {
+                name(&mut m, rng, &mut np);
+                let t: u16 = *rng.pick(&[65280u16, 99, 250, 65534]);
+                m.extend_from_slice(&t.to_be_bytes()); m.extend_from_slice(&[0, 1]); m.extend_from_slice(&rng.u32().to_be_bytes());
+                let k = rng.below(9) as usize; let d = rng.bytes(k);
+                m.extend_from_slice(&(k as u16).to_be_bytes()); m.extend_from_slice(&d);
+            }
+            bounds.push(m.len());
+        }
+    }
+    (m, bounds)
+}
+
+fn mparse_cases(cx: &mut Ctx, rng: &mut Rng, scale: usize) {
+    // fixed: bare headers with and without counts; the seeded shape QD=1 AN=2 with one answer
+    for c in [[0u16, 0, 0, 0], [1, 0, 0, 0], [0, 1, 0, 0], [0, 0, 0, 1], [0, 0, 0, 65535]] { mparse_case(cx, &header(c[0], c[1], c[2], c[3]), "mparse:corpus"); }
+    for an in [0u8, 1, 2, 3] {
+        let mut b = vec![0, 42, 0x81, 0x80, 0, 1, 0, an, 0, 0, 0, 0];
+        b.extend_from_slice(b"\x03www\x07example\x03org\x00\x00\x01\x00\x01");
+        b.extend_from_slice(&[0xc0, 12, 0xff, 0, 0, 1, 0, 0, 14, 16, 0, 4, 127, 0, 0, 1]);
+        mparse_case(cx, &b, "mparse:corpus");
+    }
+    mparse_case(cx, &[0u8; 11], "mparse:corpus");
+    for _ in 0..160 * scale {
+        let (m, bounds) = counted_message(rng);
+        mparse_case(cx, &m, "mparse:valid");
+        // over- and understated counts, alone and with a cut on an item boundary / inside an item
+        for _ in 0..3 {
+            let mut x = m.clone();
+            let f = 4 + 2 * rng.below(4) as usize;
+            let cur = u16::from_be_bytes([x[f], x[f + 1]]);
+            let nv = match rng.below(4) { 0 => cur.wrapping_add(1), 1 => cur.wrapping_add(rng.range(2, 4) as u16), 2 => cur.saturating_sub(1), _ => cur };
+            x[f..f + 2].copy_from_slice(&nv.to_be_bytes());
+            match rng.below(4) {
+                0 => {}
+                1 | 2 => { let b = *rng.pick(&bounds[..]); x.truncate(b); }
+                _ => { let k = rng.range(12, x.len() as u64) as usize; x.truncate(k); }
+            }
+            mparse_case(cx, &x, "mparse:counts");
         }
     }
 }
@@ -989,6 +1237,18 @@ fn main() {
     for (m, p) in corpus() { cx.name_case(&m, p, "corpus", true); cx.item_case(&m, p); }
     for (m, p) in big_corpus() { cx.name_case(&m, p, "big", false); }
 
+    // pointer chains through all four name readers
+    for (m, p) in chain_corpus() { cx.name_case(&m, p, "chain", true); }
+    for _ in 0..300 * scale {
+        let (m, starts) = chain_message(&mut rng);
+        for p in &starts { cx.name_case(&m, *p, "chain", false); }
+    }
+    for _ in 0..250 * scale {
+        let ch = rng_bit(&mut rng); let (m, pos, rd, end) = cname_message(&mut rng, ch);
+        cname_case(&mut cx, &m, pos, rd, end);
+        cx.name_case(&m[..end], rd, "cname", false);
+    }
+    mparse_cases(&mut cx, &mut rng, scale);
     // (2) hand-made compressed messages, all name positions and some others
     for _ in 0..500 * scale {
         let (m, np) = handmade(&mut rng);
